@@ -25,7 +25,7 @@ RULE = ('class shapes: inheritance chains of depth 1-3 with auto_persist at some
         '(shape, values, loader mode); non-trivial when >=2 member kinds are present')
 RULE += ('; also: members declared from the persist() hook or saved manually, ancestors saved before / after, futures resolved with a Savable, a shadowing class, a class name rebound after the first save, load and save contexts reused across saves')
 ASSUMPTIONS = ['custom loaders are constructible without arguments (the saved state records the loader class)', 'exceptions compare by type and args']
-REQUIRED = ['lost_loader_probes', 'property_backed_members', 'roundtrips', 'kinds/plain', 'kinds/method', 'kinds/savable', 'kinds/future', 'future_states/pending', 'future_states/result',
+REQUIRED = ['falsy_per_save_loaders', 'lost_loader_probes', 'property_backed_members', 'roundtrips', 'kinds/plain', 'kinds/method', 'kinds/savable', 'kinds/future', 'future_states/pending', 'future_states/result',
             'future_states/exception', 'future_states/exception-falsy', 'future_states/exception-base', 'saved_states_as_data', 'future_states/cancelled', 'future_states/result-savable', 'manually_saved', 'hook_declared', 'loader/default', 'loader/global', 'loader/persave', 'loader/unknown', 'loader/ctxreuse',
             'mutation_probes', 'inherited_checks', 'rebound_name_probes', 'second_saves_same_context', 'refusing_loader_probes', 'global_loader_derived_from_recorded', 'loader/persave-anon', 'registry_loader_probes', 'foreign_method_probes', 'loaded_before_any_save_of_the_class', 'extended_context_copies', 'unimportable_module_probes', 'loader/persave-picky']
 BOUNDS = {'quick': '150 shapes x 4 loader modes', 'thorough': '3000 shapes x 4 loader modes'}
@@ -95,6 +95,16 @@ class PickyLoader(CountingLoader):
         return super().load_object(identifier)
 
 
+class FalsyCountingLoader(CountingLoader):
+    def __len__(self):
+        return 0
+
+    def load_object(self, identifier):
+        loaded = super().load_object(identifier)
+        CountingLoader.loads += 1  # (the look-ups of every kind of counting loader are counted in one place)
+        return loaded
+
+
 class LenientCountingLoader(CountingLoader):
     """Also understands the default identifiers (needed where the writer cannot be given a loader, e.g. the PicklePersister)."""
 
@@ -141,6 +151,7 @@ generated.register(RegistryLoader, 'RegistryLoader')
 generated.register(RedirectingLoader, 'RedirectingLoader')
 generated.register(CountingLoader, 'CountingLoader')
 generated.register(PickyLoader, 'PickyLoader')
+generated.register(FalsyCountingLoader, 'FalsyCountingLoader')
 generated.register(LenientCountingLoader, 'LenientCountingLoader')
 
 
@@ -470,7 +481,9 @@ def run_case(case):
         if mode == 'global':
             loaders.set_object_loader(CountingLoader())
         elif mode in ('persave', 'persave-globalsub'):
-            save_ctx = persistence.LoadSaveContext(loader=CountingLoader())
+            # (every third per-save loader is an object that is falsy -- it has a length, a cache that is still empty: the loader all the same)
+            save_ctx = persistence.LoadSaveContext(loader=FalsyCountingLoader() if mode == 'persave' and case['i'] % 3 == 1 else CountingLoader())
+            obs['falsy_per_save_loaders'] = int(mode == 'persave' and case['i'] % 3 == 1)
             if case['i'] % 2:
                 # the caller adds something of its own to the context it was given (a copy with more in it): the loader comes along
                 save_ctx = save_ctx.copyextend(purpose='checkpoint')
@@ -622,7 +635,7 @@ def run_case(case):
             obs['second_saves_same_context'] = 1
             try:
                 again = obj.save(save_ctx)
-                fresh = obj.save(persistence.LoadSaveContext(loader=CountingLoader()))
+                fresh = obj.save(persistence.LoadSaveContext(loader=type(save_ctx.loader)()))
                 if norm_state(again) != norm_state(fresh):
                     viol.append(V('stale-second-save', 'stale-second-save', 'a second save through the same save context does not hold the current values: %r, expected %r' % (
                         norm_state(again), norm_state(fresh))))
